@@ -33,6 +33,15 @@ def ask_alias(prompt):
     return reader(prompt)
 def ask_default(prompt, read=input):   # ... or binds it as a default argument when the function is defined
     return read(prompt)
+class Mute:
+    def __str__(self):
+        raise ValueError('this prompt has no text')
+def ask_unprintable(kind):
+    # showing the prompt fails, as it would at a real console: nothing has been read then
+    try:
+        return input(Mute() if kind == 'mute' else 10 ** 5000)
+    except ValueError:
+        return 'no prompt, no answer'
 def ask_many(n):
     got = []
     for _ in range(n):
@@ -196,6 +205,7 @@ class Stepper:
                                    'inputs': call_inputs}, optional={'via': st.sampled_from(['alias', 'default'])}),
             st.fixed_dictionaries({'op': st.just('call'), 'f': st.just('ask_many'), 'n': st.integers(0, 3), 'inputs': call_inputs}),
             st.fixed_dictionaries({'op': st.just('call'), 'f': st.just('quiet'), 'args': st.just(['v'])}),
+            st.fixed_dictionaries({'op': st.just('call'), 'f': st.just('ask_unprintable'), 'args': st.sampled_from([['mute'], ['huge']])}),
             st.fixed_dictionaries({'op': st.just('call'), 'f': st.just('fail'), 'args': st.lists(st.sampled_from(TEXTS), min_size=1, max_size=1)}),
         )
         ev = st.fixed_dictionaries({'op': st.just('evaluate'), 'which': st.sampled_from(['quiet', 'say', 'ask', 'raw']),
@@ -324,6 +334,11 @@ class Stepper:
                     t, used, _ = self.model.execute([])
                     r = sb.call('quiet', 'v')
                     expect = 'v'
+                elif f == 'ask_unprintable':
+                    t, used, _ = self.model.execute([])       # no prompt appears and no input is consumed
+                    r = sb.call('ask_unprintable', op['args'][0])
+                    expect = 'no prompt, no answer'
+                    self.flags.add('prompt-that-cannot-be-shown')
                 else:
                     t, used, _ = self.model.execute([{'k': 'print', 'args': [op['args'][0]], 'sep': ' ', 'end': '\n'}])
                     r = sb.call('fail', op['args'][0])
